@@ -320,8 +320,7 @@ package task
 
 // Task lookup (C15 examines it); frame only here: it may attach MATCH to the call's variables.
 //@ func (*Executor).GetTask
-//@   trusted
-//@   modifies heap
+//@   modifies heap, om_has, om_val, om_len, om_key
 //@   preserves $RUNDATA
 //@   nilable result
 //@   ensures result.1 == nil ==> result.0 != nil
@@ -330,3 +329,39 @@ package task
 //@ func InitTaskfile
 //@   modifies fs_exists, fs_ver
 //@   ensures result.1 == nil ==> !old(fs_exists(result.0))                                            [C19]
+
+// ---- C15: name resolution ------------------------------------------------------------------------------
+// exactHit/exactTask: what the exact-name lookup answered; consulted/matchedAny/firstMatch: what
+// FindMatchingTasks answered to GetTask.
+//@ ghost var exactHit bool scratch
+//@ ghost var exactTask *ast.Task scratch
+//@ ghost var consulted bool scratch
+//@ ghost var matchedAny bool scratch
+//@ ghost var firstMatch *ast.Task scratch
+
+//@ func (*Executor).FindMatchingTasks
+//@   nilable call result
+//@   init exactHit := false
+//@   init exactTask := nil
+//@   site (*Tasks).Get#1 requires arg1 == call.Task                       -- the exact name is tried first              [C15]
+//@   site (*Tasks).Get#1 ghost exactHit := result.1
+//@   site (*Tasks).Get#1 ghost exactTask := result.0
+//@   site (*Tasks).All#1 requires arg1 == nil                             -- wildcards in Taskfile order                [C15]
+//@   ensures call != nil && exactHit ==> len(result) == 1 && result[0].Task == exactTask                               [C15]
+
+//@ func (*Executor).GetTask
+//@   init consulted := false
+//@   init matchedAny := false
+//@   init firstMatch := nil
+//@   site (*Executor).FindMatchingTasks#1 requires arg1 == call                                                        [C15]
+//@   site (*Executor).FindMatchingTasks#1 ghost consulted := true
+//@   site (*Executor).FindMatchingTasks#1 ghost matchedAny := len(result) > 0
+//@   site (*Executor).FindMatchingTasks#1 ghost firstMatch := result[0].Task
+//@   ensures result.1 == nil ==> consulted                    -- aliases are looked at only after names and wildcards  [C15]
+//@   ensures result.1 == nil && matchedAny ==> result.0 == firstMatch                                                  [C15]
+//@   ensures matchedAny ==> result.1 == nil                                                                            [C15]
+//@   ensures result.1 != nil ==> dyn(result.1) == type(*errors.TaskNameConflictError) || dyn(result.1) == type(*errors.TaskNotFoundError)   [C15]
+
+// Suggestions for unknown names come from a model trained on every task name and alias.
+//@ func (*Executor).setupFuzzyModel
+//@   ensures e.Taskfile != nil ==> e.fuzzyModel != nil                                                                 [C15]
